@@ -430,3 +430,225 @@ def matrix():
     for w in RESERVED + [x for x in NEAR_MISS if "#" not in x]:
         specs.append("struct cell { int %s; opaque other<>; };\nunion u2 switch (int %s) { case 1: int %s; default: void; };\n" % (w, w, w))
     return specs
+
+
+# ---------------------------------------------------------------------------------------
+# the reference reading of a declaration list (what the README says the Ast exposes)
+
+SPELL = {}
+for _k, _v in PRIM_KINDS.items():
+    for _s in _v:
+        SPELL[_s] = _k
+SPELL["string"] = "String"
+SPELL["opaque"] = "Opaque"
+
+
+def ref_bt(t):
+    return SPELL.get(t, {"Ident": t}) if t not in SPELL else SPELL[t]
+
+
+def ref_size(text):
+    if text.isdigit() and int(text) < 2 ** 32:
+        return {"Known": int(text)}
+    return {"Constant": text}
+
+
+def ref_array(t, suffix):
+    b = ref_bt(t)
+    if not suffix:
+        return {"None": b}
+    if suffix[0] == "[":
+        return {"Fixed": [b, ref_size(suffix[1:-1])]}
+    if suffix == "<>":
+        return {"Var": [b, None]}
+    return {"Var": [b, ref_size(suffix[1:-1])]}
+
+
+def ref_num(text):
+    return int(text, 16) if text.startswith("0x") else int(text)
+
+
+def expected_ast(decls):
+    consts, types = {}, {}
+    for d in decls:
+        k = d[0]
+        if k == "const":
+            consts[d[1]] = {"const": d[2]}
+        elif k == "enum":
+            for m, _v in d[2]:
+                consts[m] = {"enum": [d[1], m]}
+            types[d[1]] = {"Enum": {"name": d[1], "variants": [{"name": m, "value": {"Num": ref_num(v)}} for m, v in d[2]]}}
+        elif k == "struct":
+            types[d[1]] = {"Struct": {"name": d[1], "fields": [
+                {"name": n, "value": ref_array(t, s), "optional": bool(o)} for t, n, s, o in d[2]]}}
+        elif k == "union":
+            _, name, disc, dname, groups, default = d
+            cases, voids = [], []
+            for labels, arm in groups:
+                if arm[0] == "void":
+                    voids += list(labels)
+                else:
+                    cases.append({"values": list(labels), "name": arm[2], "value": {"None": ref_bt(arm[1])}})
+            dflt = None
+            if default is not None:
+                if default[0] == "void":
+                    voids.append("default")
+                else:
+                    dflt = {"values": ["default"], "name": default[2], "value": {"None": ref_bt(default[1])}}
+            types[name] = {"Union": {"name": name, "cases": cases, "default": dflt, "void_cases": voids,
+                                     "switch": {"name": dname, "type": ref_bt(disc)}}}
+        elif k == "typedef":
+            _, t, name, s = d
+            alias = ref_array(name, s)
+            types[name] = {"Typedef": {"target": ref_bt(t), "alias": alias}}
+    gens = reach(types)
+    return {"constants": [[k, consts[k]] for k in sorted(consts)],
+            "types": [[k, types[k]] for k in sorted(types)],
+            "generics": sorted(gens)}
+
+
+def inner_types(t):
+    if "Struct" in t:
+        return [list(f["value"].values())[0] for f in t["Struct"]["fields"]]
+    if "Union" in t:
+        u = t["Union"]
+        cs = [c["value"] for c in u["cases"]] + ([u["default"]["value"]] if u["default"] else [])
+        return [list(v.values())[0] for v in cs]
+    if "Typedef" in t:
+        return [t["Typedef"]["target"]]
+    return []
+
+
+def base_of(v):
+    return v[0] if isinstance(v, list) else v
+
+
+def reach(types):
+    """names of structs/unions/typedefs from which an opaque declaration is reachable"""
+    gens = set()
+    changed = True
+    while changed:
+        changed = False
+        for name, t in types.items():
+            if name in gens or "Enum" in t:
+                continue
+            for b in inner_types(t):
+                b = base_of(b)
+                if b == "Opaque" or (isinstance(b, dict) and b["Ident"] in gens):
+                    gens.add(name)
+                    changed = True
+                    break
+    return gens
+
+
+def normalize_f3(ast_json):
+    """the documented normalisation: `typedef opaque x<>` is an alias of opaque with no array
+    wrapper (the opaque reader handles the length prefix)"""
+    out = []
+    f3 = []
+    for k, t in ast_json["types"]:
+        if "Typedef" in t and t["Typedef"]["target"] == "Opaque" and "Var" in t["Typedef"]["alias"]:
+            b, s = t["Typedef"]["alias"]["Var"]
+            if s is not None:
+                f3.append(k)
+            t = {"Typedef": {"target": "Opaque", "alias": {"None": b}}}
+        out.append([k, t])
+    return dict(ast_json, types=out), f3
+
+
+# ---------------------------------------------------------------------------------------
+# exhaustive dependency graphs (C13)
+
+
+def graph_specs(k, limit=None, rng=None):
+    """all specifications over k declarations n0..n{k-1}: every kind (struct/union/typedef),
+    every subset of {opaque, n0..} as members, edge kinds rotating over plain / <> / [2] / * /
+    union arm / default arm / typedef declarators; every declaration order"""
+    import itertools
+    names = ["n%d" % i for i in range(k)]
+    members = ["opaque"] + names
+    edge_struct = ["", "<>", "[2]", "*", "<3>"]
+    per_decl = []
+    for i in range(k):
+        opts = []
+        subsets = [c for r in range(len(members) + 1) for c in itertools.combinations(members, r)]
+        for sub in subsets:
+            # struct
+            fields = [("int", "pad_", "", False)]
+            for j, m in enumerate(sub):
+                e = edge_struct[(i + j + len(sub)) % len(edge_struct)]
+                if m == "opaque":
+                    e2 = ["", "<>", "[4]", "<8>"][(i + j) % 4]
+                    fields.append(("opaque", "f%d" % j, e2, False))
+                elif e == "*":
+                    fields.append((m, "f%d" % j, "", True))
+                else:
+                    fields.append((m, "f%d" % j, e, False))
+            opts.append(("struct", names[i], fields))
+            # union: members as arms, the last one possibly as the default arm
+            groups = [(["0"], ("data", "int", "pad_"))]
+            default = None
+            for j, m in enumerate(sub):
+                if j == len(sub) - 1 and (i + len(sub)) % 2 == 0:
+                    default = ("data", m, "d%d" % j)
+                else:
+                    groups.append(([str(j + 1)], ("data", m, "a%d" % j)))
+            opts.append(("union", names[i], "int", "k", groups, default))
+        for m in ["int"] + members:
+            if m == names[i]:
+                continue
+            for s in (["", "[2]", "<>", "<4>"] if m != "int" else [""]):
+                opts.append(("typedef", m, names[i], s))
+        per_decl.append(opts)
+    combos = itertools.product(*per_decl)
+    out = []
+    for c in combos:
+        for perm in itertools.permutations(range(k)):
+            out.append([c[p] for p in perm])
+    if limit is not None and len(out) > limit:
+        rng = rng or random.Random(0)
+        out = rng.sample(out, limit)
+    return out
+
+
+def chain_spec(rng, n, depth):
+    """random graph over n declarations with a dependency chain of the given depth"""
+    names = ["c%d" % i for i in range(n)]
+    decls = []
+    for i in range(n):
+        kind = rng.choice(["struct", "union", "typedef"])
+        refs = []
+        if i + 1 < min(n, depth + 1):
+            refs.append(names[i + 1])           # the chain
+        elif rng.random() < 0.5:
+            refs.append("opaque")
+        if rng.random() < 0.3:
+            refs.append(rng.choice(names))
+        if rng.random() < 0.15:
+            refs.append("opaque")
+        if kind == "typedef":
+            m = refs[0] if refs else "int"
+            if m == names[i]:
+                m = "int"
+            decls.append(("typedef", m, names[i], rng.choice(["", "<>", "[2]"]) if m != "int" else ""))
+        elif kind == "struct":
+            fields = [("int", "pad_", "", False)]
+            for j, m in enumerate(refs):
+                if m == "opaque":
+                    fields.append(("opaque", "f%d" % j, rng.choice(["", "<>", "[4]"]), False))
+                elif rng.random() < 0.3:
+                    fields.append((m, "f%d" % j, "", True))
+                else:
+                    fields.append((m, "f%d" % j, rng.choice(["", "<>", "[2]"]), False))
+            decls.append(("struct", names[i], fields))
+        else:
+            groups = [(["0"], ("void",))]
+            default = None
+            for j, m in enumerate(refs):
+                if rng.random() < 0.3 and default is None:
+                    default = ("data", m, "d%d" % j)
+                else:
+                    groups.append(([str(j + 1)], ("data", m, "a%d" % j)))
+            decls.append(("union", names[i], "int", "k", groups, default))
+    rng.shuffle(decls)
+    return decls
